@@ -77,6 +77,11 @@ def transformations(case, rng):
         for n in case.names:
             kwc[n] = (lambda s, v=f.var[n]: xr.ones_like(s) * v)
         yield "variance-as-callable", ds, kwc, ident, ident
+    elif case.var_mode in ("array_prop", "callable"):   # a location- and time-dependent variance, given as numpy array / DataArray / callable
+        prop = {n: gen_fibre.variance_forms(f, n, "array_prop") for n in case.names}
+        yield "variance-prop-as-array", ds, {**kw, **prop}, ident, ident
+        yield "variance-prop-as-dataarray", ds, {**kw, **{n: xr.DataArray(v, dims=ds[n[:-4]].dims, coords=ds[n[:-4]].coords) for n, v in prop.items()}}, ident, ident
+        yield "variance-prop-as-callable", ds, {**kw, **{n: gen_fibre.variance_forms(f, n, "callable") for n in case.names}}, ident, ident
     # (e) removing locations that belong to no reference or matching section
     ix = set(int(i) for i in ds.dts.ufunc_per_section(sections=f.sections, x_indices=True, calc_per="all"))
     for a, b in f.params["match_ix"]:
@@ -185,6 +190,9 @@ def gen_params(ctx):
             if "alpha" in pp["fix"].split("+") and not double:
                 pp["nmatch"] = 0
         out.append(pp)
+    for k in range(2 if ctx.quick else 6):   # as many time steps as locations: an (x, time) array cannot be told from its transpose by shape
+        n = 18 + 2 * (k // 2)
+        out.append(calib.random_params(rng, bool(k % 2), quick=True, noise=0.01, nmatch=0, nta=int(k % 4 >= 2), nx=n, nt=n, var_mode="array_prop"))
     return out
 
 
